@@ -192,6 +192,13 @@ async fn run_point(ctx: &mut Ctx, p: &Point, delivery: &str, follow_up: bool) {
             conn.set_read_chunks(&[64, 1, 3]);
             conn.feed(&bytes);
         }
+        d if d.starts_with("chunks-") => {
+            // seeded read sizes (thorough tier): the same grid under other segmentations
+            let mut r = Rng::keyed(hash_str(d), &[4, bytes.len() as u64]);
+            let chunks: Vec<usize> = (0..40).map(|_| *r.pick(&[1usize, 2, 3, 9, 10, 11, 31, 32, 53, 63, 64, 65, 70])).collect();
+            conn.set_read_chunks(&chunks);
+            conn.feed(&bytes);
+        }
         _ => conn.feed(&bytes),
     }
     let mut att = Managed::new(attach_future(sock.backend(), r, w));
@@ -603,6 +610,11 @@ impl Prop for C04 {
                     let _ = tier;
                     v.push(json!({"kind": "unit", "local": local, "peer": peer, "delivery": "byte-at-a-time", "seed": seed}));
                     v.push(json!({"kind": "unit", "local": local, "peer": peer, "delivery": "ready-split", "seed": seed}));
+                    if tier == Tier::Thorough {
+                        for k in 0..6u64 {
+                            v.push(json!({"kind": "unit", "local": local, "peer": peer, "delivery": format!("chunks-{}", crate::prng::mix(seed ^ k)), "seed": seed}));
+                        }
+                    }
                 }
             }
         }
